@@ -357,6 +357,7 @@ type CR3Opts struct {
 	Use64    bool // allow 64-bit box headers
 	Brands   int  // further compatible brands in ftyp (cameras write two)
 	TopExtra bool // unknown/free boxes between any two top-level boxes (also right after ftyp)
+	Top64    int  // bit 0: moov, bit 1: the xpacket uuid box, bit 2: the preview uuid box carry a 64-bit size (size field 1, largesize follows)
 	Tail     int  // 0: mdat last (as cameras write it); 1: no mdat (the last metadata box ends the stream); 2: mdat before the xpacket/preview uuid boxes
 }
 
@@ -449,13 +450,20 @@ func DrawCR3(l *core.Lane, o CR3Opts) *CR3 {
 	}
 	topExtra()
 	moovStart := len(out)
-	out = append(out, Box("moov", moov)...)
+	mh := 8 // header length of moov
+	if o.Top64&1 != 0 {
+		mh = 16
+		out = append(out, Box64("moov", moov)...)
+		c.Map = append(c.Map, FieldSpan{"moov.largesize", moovStart + 8, 8})
+	} else {
+		out = append(out, Box("moov", moov)...)
+	}
 	c.Top = append(c.Top, Span{"moov", moovStart, len(out)})
 	c.Moov = Span{"moov", moovStart, len(out)}
-	c.Canon = Span{"uuid-canon", moovStart + 8 + preMoov, moovStart + 8 + preMoov + len(canon)}
+	c.Canon = Span{"uuid-canon", moovStart + mh + preMoov, moovStart + mh + preMoov + len(canon)}
 	topExtra()
-	c.Map = append(c.Map, FieldSpan{"moov.size", moovStart, 4}, FieldSpan{"canon.size", moovStart + 8 + preMoov, 4})
-	canonPayload := moovStart + 8 + preMoov + 8 + 16
+	c.Map = append(c.Map, FieldSpan{"moov.size", moovStart, 4}, FieldSpan{"canon.size", moovStart + mh + preMoov, 4})
+	canonPayload := moovStart + mh + preMoov + 8 + 16
 	c.Map = append(c.Map, FieldSpan{"ctbo.size", canonPayload + ctboRel - 8, 4}, FieldSpan{"ctbo.count", canonPayload + ctboRel, 4})
 	for i := 0; i < 4; i++ {
 		rec := canonPayload + ctboRel + 4 + 20*i
@@ -477,8 +485,15 @@ func DrawCR3(l *core.Lane, o CR3Opts) *CR3 {
 	// --- uuid xpacket
 	if o.XMP != nil {
 		s := len(out)
-		out = append(out, Box("uuid", uuidXPacket, o.XMP)...)
-		c.XMPOff = s + 24
+		xh := 8
+		if o.Top64&2 != 0 {
+			xh = 16
+			out = append(out, Box64("uuid", uuidXPacket, o.XMP)...)
+			c.Map = append(c.Map, FieldSpan{"xmp.largesize", s + 8, 8})
+		} else {
+			out = append(out, Box("uuid", uuidXPacket, o.XMP)...)
+		}
+		c.XMPOff = s + xh + 16
 		c.Top = append(c.Top, Span{"uuid-xmp", s, len(out)})
 		c.XMPBox = Span{"uuid-xmp", s, len(out)}
 		topExtra()
@@ -489,13 +504,20 @@ func DrawCR3(l *core.Lane, o CR3Opts) *CR3 {
 		s := len(out)
 		c.PrevW, c.PrevH = 1+l.Intn(4000), 1+l.Intn(3000)
 		prvw := Box("PRVW", be32(0), be16(1), be16(uint16(c.PrevW)), be16(uint16(c.PrevH)), be16(1), be32(uint32(len(o.Preview))), o.Preview)
-		out = append(out, Box("uuid", uuidPreview, be32(0), be32(1), prvw)...)
-		c.PrevOff = s + 8 + 16 + 8 + 24
+		ph := 8
+		if o.Top64&4 != 0 {
+			ph = 16
+			out = append(out, Box64("uuid", uuidPreview, be32(0), be32(1), prvw)...)
+			c.Map = append(c.Map, FieldSpan{"prvwuuid.largesize", s + 8, 8})
+		} else {
+			out = append(out, Box("uuid", uuidPreview, be32(0), be32(1), prvw)...)
+		}
+		c.PrevOff = s + ph + 16 + 8 + 24
 		c.Top = append(c.Top, Span{"uuid-prvw", s, len(out)})
 		c.PrevUUID = Span{"uuid-prvw", s, len(out)}
-		c.PRVW = Span{"PRVW", s + 32, len(out)}
+		c.PRVW = Span{"PRVW", s + ph + 24, len(out)}
 		topExtra()
-		c.Map = append(c.Map, FieldSpan{"prvwuuid.size", s, 4}, FieldSpan{"prvw.size", s + 32, 4}, FieldSpan{"prvw.jpegsize", s + 32 + 20, 4})
+		c.Map = append(c.Map, FieldSpan{"prvwuuid.size", s, 4}, FieldSpan{"prvw.size", s + ph + 24, 4}, FieldSpan{"prvw.jpegsize", s + ph + 24 + 20, 4})
 	}
 	if o.Surround && l.Bool() {
 		s := len(out)
